@@ -54,6 +54,14 @@ def cases(tier, seed):
         for t in pairs:
             for ex in ex_variants:
                 yield dict(src=list(s), tgt=list(t), ex=ex, imputers='default')
+    # existence patterns with the SAME existence mask and different overridden degrees (grouping connectors)
+    for s in [('0..*', False), ('0..*', True), ('1..*', False)]:
+        for t in pairs[:6]:
+            for ovs in ([[1], [2]], [[0, 1], [2]], [[1], [1, 2]]):
+                yield dict(src=[s], tgt=list(t), ex='ovp', imputers='all',
+                           ovp=[[[True], [True, True], {'0': ov}, {}] for ov in ovs])
+                yield dict(src=list(t), tgt=[s], ex='ovp', imputers='all',
+                           ovp=[[[True, True], [True], {}, {'0': ov}] for ov in ovs])
     yield from pair_cases()
     if tier != 'quick':
         T4 = [('1', False), ('0..1', False), ('0..*', True), ('1..*', False)]
@@ -336,8 +344,13 @@ def run_case(case):
     feats = res['features']
     n, m = len(case['src']), len(case['tgt'])
     excl = [tuple(e) for e in case.get('excl', [])]
-    pats = patterns_of(case)
-    refs = [c09.reference(case, excl, se, te) for se, te in pats]
+    ovp = case.get('ovp')   # explicit patterns with degree overrides: [[src_exists, tgt_exists, src_override, tgt_override], ...]
+    if ovp:
+        pats = [(tuple(se), tuple(te)) for se, te, _, _ in ovp]
+        refs = [c09.reference(dict(case, src_override=so, tgt_override=to), excl, se, te) for se, te, so, to in ovp]
+    else:
+        pats = patterns_of(case)
+        refs = [c09.reference(case, excl, se, te) for se, te in pats]
     if any(len(r) >= 2 for r in refs):
         res['nontrivial'] = True
     if not any(len(r) >= 1 for r in refs):
@@ -348,7 +361,13 @@ def run_case(case):
     def make_settings():
         src = [c09._node(t) for t in case['src']]
         tgt = [c09._node(t) for t in case['tgt']]
-        existences = [NodeExistence(src_exists=list(se), tgt_exists=list(te)) for se, te in pats]
+        if ovp:
+            existences = [NodeExistence(src_exists=list(se), tgt_exists=list(te),
+                                        src_n_conn_override={int(k): list(v) for k, v in (so or {}).items()} or None,
+                                        tgt_n_conn_override={int(k): list(v) for k, v in (to or {}).items()} or None)
+                          for se, te, so, to in ovp]
+        else:
+            existences = [NodeExistence(src_exists=list(se), tgt_exists=list(te)) for se, te in pats]
         existence = NodeExistencePatterns(patterns=existences) if case['ex'] != 'none' else None
         st = MatrixGenSettings(src, tgt, excluded=[(src[i], tgt[j]) for i, j in excl] or None, existence=existence)
         return st, existences
